@@ -1151,7 +1151,9 @@ def _abs_eval(e, env, repo, f):
       if e.args[0].id in ('min_rate', 'beta'):
         if tn in ('(int, float)', '(float, int)', 'float',
                   'numbers.Real', '(int, float, np.floating)'):
-          return True       # the classes model float values
+          if e.args[0].id == 'beta':
+            return isinstance(env.get('beta'), float)
+          return True       # the classes of min_rate model float values
         raise _Undecided('isinstance %s' % tn)
       raise _Undecided('isinstance')
     if d in (canon('numpy.isnan'), 'math.isnan') and len(e.args) == 1 and \
@@ -1216,10 +1218,72 @@ def rule_min_rate_range(repo, rep):
         rep.refuted(R, key, site(f), 'for strategy %r and min_rate in the '
                     'class %s the validation gives %s, documented %s'
                     % (strat, cls_, got, w))
+  # beta: a real number is required for f_beta (and only there); the strategy
+  # itself must be one of the four documented names
+  for bval_, w in ((None, 'ValueError'), ('not-a-number', 'ValueError'),
+                   (1.0, 'ok'), (0.0, 'ok')):
+    key = '_validate_calibration_params:f_beta:beta=%r' % (bval_,)
+    try:
+      got = _abs_run(body, {'strategy': 'f_beta', 'min_rate': 'mid',
+                            'beta': bval_}, repo, f)
+    except _Undecided as u:
+      rep.unknown(R, key, site(f), 'guard outside the interpreted forms: %s'
+                  % u)
+      continue
+    rep.add(R, key, 'derived' if got == w else 'refuted', site(f),
+            '' if got == w else 'for strategy f_beta and beta = %r the '
+            'validation gives %s, documented %s' % (bval_, got, w))
+  for strat, w in (('accuracy', 'ok'), ('f_beta', 'ok'), ('max_tpr', 'ok'),
+                   ('max_tnr', 'ok'), ('weird', 'ValueError')):
+    key = '_validate_calibration_params:strategy=%s' % strat
+    try:
+      got = _abs_run(body, {'strategy': strat, 'min_rate': 'mid',
+                            'beta': 1.0}, repo, f)
+    except _Undecided as u:
+      rep.unknown(R, key, site(f), 'guard outside the interpreted forms: %s'
+                  % u)
+      continue
+    rep.add(R, key, 'derived' if got == w else 'refuted', site(f),
+            '' if got == w else 'strategy %r gives %s, documented %s'
+            % (strat, got, w))
+
+
+def rule_validation_args(repo, rep):
+  R = 'R-FLOW:calibration-parameters-reach-their-formals'
+  rep.rule(R, 'calibrate_threshold hands (strategy, min_rate, beta) to the '
+           'same-named formals of _validate_calibration_params; fit hands '
+           'over **calibration_params')
+  f = repo.get_func(FN)
+  g = repo.get_func('base_metric._PairsClassifierMixin.'
+                    '_validate_calibration_params')
+  formals = g.params()
+  if formals and formals[0] in ('self', 'cls'):
+    formals = formals[1:]
+  calls = [c for c in astutil.calls_in(f.node)
+           if ast.unparse(c.func) == 'self._validate_calibration_params']
+  if len(calls) != 1:
+    rep.unknown(R, 'calibrate_threshold', site(f), '%d validation calls'
+                % len(calls))
+    return
+  c = calls[0]
+  bound = {}
+  for i_, a in enumerate(c.args):
+    if i_ < len(formals):
+      bound[formals[i_]] = ast.unparse(a)
+  for k in c.keywords:
+    if k.arg:
+      bound[k.arg] = ast.unparse(k.value)
+  bad = {k: v for k, v in bound.items() if k != v}
+  missing = [p_ for p_ in ('strategy', 'min_rate', 'beta') if p_ not in bound]
+  ok = not bad and not missing
+  rep.add(R, 'calibrate_threshold', 'derived' if ok else 'refuted',
+          site(f, c), '' if ok else 'validation receives %s%s' % (
+              bad, ' and nothing for %s' % missing if missing else ''))
 
 
 def check(repo, rep, tier):
   before = len(rep.obs)
+  rule_validation_args(repo, rep)
   c06.rule_calibration_first(repo, rep)
   rule_min_rate_range(repo, rep)
   rule_accuracy(repo, rep)
